@@ -293,6 +293,100 @@ def jitRun (shared : Bool) (d : Nat → Nat) : JitWorld → List (Nat × Nat × 
     let (w', c') := jitCall shared w fn fp (d fn) c
     c' :: jitRun shared d w' rest
 
+/-! ### counter dictionaries as heap objects: what a jit cache hit must do to them
+
+`Scope.rng_counters` of a child scope is the *same dict object* that sits in the parent's dict under
+`(child_rng_token, name)`; a child scope that was bound earlier (setup-style submodules, re-entered children) keeps
+its reference.  On a jit cache hit `_restore_rng_counters` writes `old + cached delta` back with the recursive
+`set_from_dict`, i.e. **in place**.  Cells are addressed by `(root id, key path)` like `Store.dicts`; the links record
+which cell a parent's entry refers to, so that replacing an entry by a new object (what `dict.update` would do) is
+expressible. -/
+
+structure CHeap where
+  cells : List (CRef × List (String × Nat))      -- dict objects: their stream counters
+  links : List ((CRef × String) × CRef)          -- parent dict, child name ↦ the child's dict object
+  fresh : Nat                                    -- root ids ≥ fresh are unused (new objects)
+  deriving Repr, Inhabited
+
+def CHeap.init : CHeap := { cells := [(((0 : Nat), []), [])], links := [], fresh := 1 }
+
+/-- `Scope.push(name, reuse=True)` on the counters: the dict stored in the parent's dict, created there if missing -/
+def CHeap.pushC (h : CHeap) (a : CRef) (n : String) : CHeap × CRef :=
+  match find? (a, n) h.links with
+  | some b => (h, b)
+  | none =>
+    let b : CRef := (a.1, a.2 ++ [n])
+    ({ h with cells := h.cells ++ [(b, [])], links := h.links ++ [((a, n), b)] }, b)
+
+def CHeap.ensure : CHeap → CRef → List String → CHeap × CRef
+  | h, a, [] => (h, a)
+  | h, a, n :: rest =>
+    let r := h.pushC a n
+    CHeap.ensure r.1 r.2 rest
+
+/-- follow the nested dict keys `(tok, n₁) … (tok, nₖ)` from dict `a` -/
+def CHeap.walk : CHeap → CRef → List String → Option CRef
+  | _, a, [] => some a
+  | h, a, n :: rest =>
+    match find? (a, n) h.links with
+    | some b => CHeap.walk h b rest
+    | none => none
+
+def CHeap.read (h : CHeap) (b : CRef) (s : String) : Nat :=
+  match find? b h.cells with
+  | some d => (match find? s d with | some v => v | none => 0)
+  | none => 0
+
+/-- what `CountsHolder.make(scope.rng_counters)` sees under the nested key path (a `defaultdict(int)`) -/
+def CHeap.readVia (h : CHeap) (a : CRef) (p : List String) (s : String) : Nat :=
+  match h.walk a p with
+  | some b => h.read b s
+  | none => 0
+
+/-- `d[s] = f(d.get(s, 0))` on the dict object `b`, in place -/
+def CHeap.modify (h : CHeap) (b : CRef) (s : String) (f : Nat → Nat) : CHeap :=
+  let d := match find? b h.cells with | some d => d | none => []
+  { h with cells := set b (set s (f (h.read b s)) d) h.cells }
+
+def CHeap.applyAt (h : CHeap) (a : CRef) (p : List String) (s : String) (f : Nat → Nat) : CHeap :=
+  let r := h.ensure a p
+  r.1.modify r.2 s f
+
+/-- the Python body of a jit-ted function when it is traced: draws `(child path, stream)` through `push(reuse)` -/
+def CHeap.runBody (h : CHeap) (a : CRef) : List (List String × String) → CHeap
+  | [] => h
+  | (p, s) :: rest => CHeap.runBody (h.applyAt a p s (· + 1)) a rest
+
+/-- `set_from_dict(scope.rng_counters, updates)` (flax/core/lift.py): recursive, in place -/
+def CHeap.setFromDict (h : CHeap) (a : CRef) : List (List String × String × Nat) → CHeap
+  | [] => h
+  | (p, s, v) :: rest => CHeap.setFromDict (h.applyAt a p s (fun _ => v)) a rest
+
+/-- the cache-hit branch of `_restore_rng_counters`: counters := old + cached delta, written in place -/
+def CHeap.hitCall (h : CHeap) (a : CRef) (delta : List (List String × String × Nat)) : CHeap :=
+  h.setFromDict a (delta.map (fun x => (x.1, x.2.1, h.readVia a x.1 x.2.1 + x.2.2)))
+
+/-- **not** the shipped code: `scope.rng_counters.update(updates)` replaces every child entry of the top-level dict by a
+new dict object (here: cells under a fresh root id) before the values are written -/
+def CHeap.detach (h : CHeap) (a : CRef) : List String → CHeap
+  | [] => h
+  | n :: ns =>
+    let b : CRef := (h.fresh, a.2 ++ [n])
+    CHeap.detach { cells := h.cells ++ [(b, [])], links := set (a, n) b h.links, fresh := h.fresh + 1 } a ns
+
+def CHeap.hitCallUpdate (h : CHeap) (a : CRef) (delta : List (List String × String × Nat)) : CHeap :=
+  let ups := delta.map (fun x => (x.1, x.2.1, h.readVia a x.1 x.2.1 + x.2.2))
+  (h.detach a (ups.filterMap (fun x => x.1.head?))).setFromDict a ups
+
+/-- distinct keys of the body, in order of first occurrence from the right -/
+def dedupKeys : List (List String × String) → List (List String × String)
+  | [] => []
+  | x :: xs => if x ∈ xs then dedupKeys xs else x :: dedupKeys xs
+
+/-- the delta `_restore_rng_counters` caches after tracing: new − old for every counter the body touched -/
+def deltaOf (body : List (List String × String)) : List (List String × String × Nat) :=
+  (dedupKeys body).map (fun k => (k.1, k.2, (body.filter (fun d => decide (d = k))).length))
+
 /-! ## NNX streams -/
 
 /-- the value of `RngStream.key`: one key, or (after `split_rngs`) the array `idx ↦ split k shape idx` -/
